@@ -556,7 +556,7 @@ impl Prop for C17 {
             Tier::Thorough => (800_000, 700_000),
         };
         vec![
-            Space { name: "routes", size: ex, exhaustive: true, chunk: 1500, case_timeout_s: 20.0, what: "every single-reference program over mod ma { fn fa  mod mb { fn fb } } mod mc {}: 2 targets x 4 positions x 51 reference forms x 8 pub/private assignments x 7 wrappers, well-formed ones only" },
+            Space { name: "routes", size: ex, exhaustive: true, chunk: 1500, case_timeout_s: 20.0, what: "every single-reference program over mod ma { fn fa  mod mb { fn fb } } mod mc {}: 2 targets x 4 positions x 51 reference forms x 8 pub/private assignments x 8 wrappers (plain, in a lambda, four shadowing forms, after the end of a shadowing scope, in the initialiser of a let of the same name), well-formed ones only" },
             Space { name: "positive", size: np, exhaustive: false, chunk: if tier == Tier::Quick { 500 } else { 4000 }, case_timeout_s: 20.0, what: "random module trees (depth <= 3) with 1-4 legal references through random routes" },
             Space { name: "negative", size: nn, exhaustive: false, chunk: if tier == Tier::Quick { 400 } else { 3000 }, case_timeout_s: 20.0, what: "the same with exactly one pub flag switched off so that exactly one reference is illegal (and the all-legal twin)" },
         ]
